@@ -36,7 +36,7 @@ def plan(tier):
 
 
 def floors(tier):
-    return {"nontrivial": 100, "held:main": 180, "counter:symbolic_sums": 200, "counter:numeric_sums": 600,
+    return {"nontrivial": 100, "held:main": 180, "counter:symbolic_sums": 200, "counter:rejected_mutations": 60, "counter:numeric_sums": 600,
             "counter:deterministic_solutions": 300, "counter:stochastic_paths": 400, "counter:proposals_sum_checked": 20000,
             "counter:gridded_rows_checked": 1000, "counter:hostile_draws": 300,
             "class:multi-transition": 30, "class:non-unit-magnitude": 50, "class:symbolic-magnitude": 15, "class:time-dependent": 15,
@@ -71,6 +71,8 @@ def run_case(rng, idx, tier, lane, ctx):
     except Exception as e:
         return {"status": "violated", "sample": spec, "counters": counters,
                 "witnesses": [{"what": "model construction raised", "error": short_exc(e), "tb": tb_tail(e)}]}
+    if spec["params"] and rng.random() < 0.3:
+        counters["rejected_mutations"] = counters.get("rejected_mutations", 0) + G.rejected_mutations(m, spec, rng)
     # ---- (a) right-hand side sums to zero
     try:
         ode = rename_to_ref(sympy.Matrix(m.get_ode_eqn()), ref)
